@@ -297,6 +297,7 @@ func checkC07(r *Run) {
 		c.st.Evals++
 		c.st.Transitions++
 		c.st.States++
+		c.st.Outcomes[fmt.Sprintf("lines=%d cap=%d hb=%v", len(cs.Lines), cs.Cap, cs.WithVal)]++
 		if len(cs.Lines) > 1 || cs.VF[0].VE-cs.VF[0].VS > 1 {
 			c.st.Nontrivial++
 		}
